@@ -520,8 +520,20 @@ func runC12(c *cli.Ctx) error {
 			}
 			return "nobody"
 		})
+		// the two options together, in either order (each alone is exercised by the server-side streams)
+		var cextra []string
+		switch r.Intn(3) {
+		case 1:
+			cextra = []string{"PROPFIND"}
+		case 2:
+			cextra = []string{"foo", "propfind"}
+		}
+		copts := []promhttp.Option{opt, promhttp.WithExtraMethods(cextra...)}
+		if r.Bool() {
+			copts[0], copts[1] = copts[1], copts[0]
+		}
 		chain := promhttp.InstrumentRoundTripperInFlight(g,
-			promhttp.InstrumentRoundTripperCounter(cv, promhttp.InstrumentRoundTripperDuration(hv, rt, opt), opt))
+			promhttp.InstrumentRoundTripperCounter(cv, promhttp.InstrumentRoundTripperDuration(hv, rt, copts...), copts...))
 		req, _ := http.NewRequestWithContext(context.WithValue(context.Background(), ctxKey{}, "me"), m, "http://example.org/", nil)
 		panicked := false
 		var rerr error
@@ -544,7 +556,7 @@ func runC12(c *cli.Ctx) error {
 		}
 		var gm dto.Metric
 		g.Write(&gm)
-		w.Add(emit.C(5, emit.S(m), emit.I(status), emit.B(fail), emit.B(reqNil),
+		w.Add(emit.C(5, emit.S(m), emit.SL(cextra), emit.I(status), emit.B(fail), emit.B(reqNil),
 			emit.Tup(emit.I(count), emit.S(code), emit.S(meth), emit.S(who), emit.B(panicked), emit.B(rerr != nil), emit.I(dcount), emit.I(int(gm.Gauge.GetValue())))),
 			!fail, fmt.Sprintf("transport-fails:%v", fail), fmt.Sprintf("response.Request-nil:%v", reqNil))
 	}
